@@ -43,6 +43,50 @@ SHAPES = [pg.shape_growing, pg.shape_growing, pg.shape_poly_rec, pg.shape_nested
           pg.shape_random, pg.shape_random, pg.shape_random, pg.shape_random]
 
 
+def shape_cycle3(rng, witness=False):
+    """A positive cycle through three or more SLG tables with the same unknown:
+        Chain(A) :- Link(A), Step(A).   Link(A) :- [Mid(A) :-] Step(A).   Step(W<A>) :- [Never(A),] Chain(A).   Step(<fact>).
+    The head has two subgoals that both lead into the cycle, and the fact of the bottom table is reached
+    only after the first pass around the cycle (the bottom table still owns an un-pursued strand when the
+    intermediate table runs out of strands).  With `Never` (no impl) the solution set is finite."""
+    four = (not witness) and rng.random() < 0.35
+    never = witness or rng.random() < 0.6
+    adts = [pg.Adt("S"), pg.Adt("W", 1)] + ([] if witness else [pg.Adt("Z")])
+    names = ["Chain", "Link", "Step"] + (["Mid"] if four else []) + (["Never"] if never else [])
+    traits = [pg.Trait(n) for n in names]
+    A = pg.var(0)
+    head_wcs = [("Link", (A,)), ("Step", (A,))]
+    if not witness and rng.random() < 0.3:
+        head_wcs.reverse()
+    impls = [pg.Impl(1, ("Chain", (A,)), head_wcs)]
+    if four:
+        impls += [pg.Impl(1, ("Link", (A,)), [("Mid", (A,))]), pg.Impl(1, ("Mid", (A,)), [("Step", (A,))])]
+    else:
+        impls.append(pg.Impl(1, ("Link", (A,)), [("Step", (A,))]))
+    rec_wcs = ([("Never", (A,))] if never else []) + [("Chain", (A,))]
+    if not witness and never and rng.random() < 0.3:
+        rec_wcs.reverse()
+    impls.append(pg.Impl(1, ("Step", (pg.adt("W", A),)), rec_wcs))
+    fact = pg.adt("W", pg.adt("S")) if (witness or rng.random() < 0.6) else pg.adt(rng.choice(["S", "Z"]))
+    impls.append(pg.Impl(0, ("Step", (fact,))))
+    if not witness and never and rng.random() < 0.3:
+        impls.append(pg.Impl(0, ("Never", (pg.adt("Z"),))))
+    if not witness and rng.random() < 0.3:
+        impls.append(pg.Impl(0, ("Step", (pg.adt("Z"),))))
+    return pg.Prog(adts, traits, impls, "cycle3" + ("-witness" if witness else ""))
+
+
+def cycle3_goals(p):
+    gs = []
+    k = 900
+    for t in p.traits:
+        k += 1
+        gs.append(("exists", (k,), ("atom", (t.name, (pg.var(k),)))))
+    k += 1
+    gs.append(("exists", (k,), ("atom", ("Chain", (pg.adt("W", pg.var(k)),)))))
+    return gs
+
+
 def gen_goals(rng, p, n):
     gg = pg.GoalGen(rng, p)
     out = []
@@ -204,7 +248,14 @@ def build_cases(rng, ctx):
         gs = [g for g in goals if pg.has_exists(g) and not pg.is_floundering_prone(g)]
         if gs:
             work.append((p, pg.to_text(p), gs))
-    for _ in range(ctx.n(40, 220)):
+    w = shape_cycle3(rng, witness=True)
+    work.append((w, pg.to_text(w), cycle3_goals(w)))
+    for _ in range(ctx.n(6, 40)):
+        p = shape_cycle3(rng)
+        if rng.random() < 0.4:
+            p = pg.permute(p, rng)
+        work.append((p, pg.to_text(p), cycle3_goals(p)))
+    for _ in range(ctx.n(36, 200)):
         p = rng.choice(SHAPES)(rng)
         if rng.random() < 0.4:
             p = pg.permute(p, rng)
